@@ -245,7 +245,9 @@ def describe(sim):
 def base_reason(entry):
     """script entries are exit reasons, optionally with a suffix that says HOW a real engine gets the reason:
     "X:os" / "X:launch" (X = SubmissionFailed: the task generator raises OSError / JobLaunchError, no Task exists),
-    "UnknownIssue:raise" (the task generator raises something else)"""
+    "UnknownIssue:raise" (the task generator raises something else), "X:perf" / "X:matrix" (a Task is created and
+    exits with X, then the engine's post-exit pipeline raises: FinalisePerformanceInfo cannot read the task's
+    performance information / cannot update the performance table)"""
     return entry.partition(":")[0]
 
 
@@ -254,8 +256,12 @@ def _launch_variant(rng, reason, real):
         return reason
     if reason == "SubmissionFailed":
         return reason + rng.choice(["", ":os", ":launch", ":os", ":launch"])
-    if reason == "UnknownIssue":
-        return reason + rng.choice(["", "", ":raise"])
+    if reason == "UnknownIssue" and rng.random() < 0.34:
+        return reason + ":raise"
+    if rng.random() < 0.3:
+        # the task exits with `reason`; then the engine's own post-exit bookkeeping fails (the reason of the execution
+        # is still the task's)
+        return reason + rng.choice([":perf", ":matrix"])
     return reason
 
 
@@ -343,6 +349,30 @@ def own_outcome(c, script):
         if r == "Success":
             return "finished"
         return "shutdown" if r in c["shutdownOn"] else "failed"
+
+
+def own_executions(c, script):
+    """number of task executions after which `own_outcome(c, script)` is reached (the execution whose exit is final)"""
+    restarts = 0
+    resub = 0
+    k = 0
+    while True:
+        r = base_reason(script[k]) if k < len(script) else "Success"
+        k += 1
+        if r == "Success":
+            resub = 0
+        restart = False
+        if r in c["restartOn"]:
+            restart = restarts + 1 <= c["maxRestarts"]
+        elif r == "SubmissionFailed":
+            restart = resub < RESUB_CAP and restarts + 1 <= c["maxRestarts"]
+        if restart and k <= 200:
+            if r == "SubmissionFailed":
+                resub += 1
+            else:
+                restarts += 1
+            continue
+        return k
 
 
 def expected_states(info, scripts):
@@ -606,6 +636,8 @@ def launch_of(entry):
         return "submitError"
     if how == "raise":
         return "otherError"
+    if how in ("perf", "matrix"):
+        return "taskFault:" + base
     return "task:" + base
 
 
@@ -785,7 +817,8 @@ def run_loop(case, chooser_factory):
         inner = chooser_factory(sim)
 
         def chooser(s):
-            if len(s.scripts) != len(scripts) or any(r not in scripts for r in s.refs):
+            if len(s.scripts) != len(scripts) or any(r not in scripts or s.scripts.get(r) != scripts[r]
+                                                     for r in s.refs):
                 sync_scripts()
             return inner(s)
         chooser.notify = getattr(inner, "notify", None) or (lambda *a: None)
@@ -796,6 +829,22 @@ def run_loop(case, chooser_factory):
         res.scripts = {r: list(scripts.get(r, [])) for r in sim.refs}
         res.final = [sim.state_name(r) for r in sim.refs]
         res.pool_errors = list(sim.pool_errors)
+        # what the C02 oracle needs (run-to-verdict of a workflow whose set of components grows while it runs)
+        res.done = [r in sim.controller.comp_done for r in sim.refs]
+        res.stage_of = [int(sim.comp[r].stageIndex) for r in sim.refs]
+        res.stage_states = sim.stage_states()
+        res.execs = [int(sim.execs.get(r, 0)) for r in sim.refs]
+        res.first_final = [sim.first_final.get(r) for r in sim.refs]
+        res.flips = final_state_changes(None, [sn for _, sn in sim.trace])
+        res.live = [sim.refs[i] for i in sim.live()]
+        res.exit_log = {r: [list(x) for x in v] for r, v in sim.exit_log.items()}
+        res.policy = []
+        for r in sim.refs:
+            wa = sim.comp[r].specification.workflowAttributes
+            maxr = wa.get("maxRestarts", None)
+            res.policy.append({"ref": r, "shutdownOn": list(wa["shutdownOn"]),
+                               "restartOn": list(wa.get("restartHookOn", [])),
+                               "maxRestarts": int(3 if maxr is None else maxr)})
         G = sim.controller.graph
         res.iterations = 1 + max([k for k, _n in (_iteration_of(r) for r in sim.refs) if k is not None] or [0])
         res.launch_bad = []
